@@ -97,6 +97,9 @@ type spec struct {
 	// The failed reorg is rolled back, the serving peer dropped; the harness re-dials dropped links.
 	// The node must still end on the heaviest chain when the same blocks are delivered again.
 	flushFail []int
+	// lateStart: the main chain's first block is years younger than the genesis block, so that the
+	// difficulty stays at its minimum (for chains of thousands of blocks)
+	lateStart bool
 }
 
 func edgesOf(topo string, n int) [][2]int {
@@ -211,6 +214,9 @@ func coreSpecs() []spec {
 	// more than 100 blocks: the request split, v1 request then checkpoint requests
 	add(spec{name: "core-long-205", mainLen: 205, branches: []branch{m(205), m(0), f(150, 20, 2*time.Second)}, topo: "line"})
 	add(spec{name: "core-long-fork-101", mainLen: 130, branches: []branch{f(20, 101, 2*time.Second), m(130)}, topo: "line"})
+	// more headers than one SendHeaders reply holds (10000, not configurable), and a quiet network:
+	// tips are announced once, the rest must come from the sync loop asking again
+	add(spec{name: "core-long-10040-quiet", mainLen: 10040, branches: []branch{m(10040), m(0)}, topo: "line", announce: "once", lateStart: true})
 	// a node bootstrapped from a checkpoint (instant sync)
 	add(spec{name: "core-bootstrap-behind", mainLen: 30, branches: []branch{m(14), m(30), f(20, 4, 2*time.Second)}, topo: "line", bootstrap: 0, bootAt: 14})
 	add(spec{name: "core-bootstrap-ahead", mainLen: 30, branches: []branch{m(30), m(19), f(22, 3, 2*time.Second)}, topo: "star", bootstrap: 0, bootAt: 18})
@@ -489,8 +495,8 @@ var (
 	mains  = map[string]*netx.Chain{}
 )
 
-func mainChain(allow, require uint64, n int, dt time.Duration) *netx.Chain {
-	key := fmt.Sprintf("%d/%d/%d/%v", allow, require, n, dt)
+func mainChain(allow, require uint64, n int, dt time.Duration, lateStart bool) *netx.Chain {
+	key := fmt.Sprintf("%d/%d/%d/%v/%v", allow, require, n, dt, lateStart)
 	mainMu.Lock()
 	defer mainMu.Unlock()
 	if c, ok := mains[key]; ok {
@@ -498,6 +504,13 @@ func mainChain(allow, require uint64, n int, dt time.Duration) *netx.Chain {
 	}
 	nt := netx.NewNet(allow, require, 0x00, 0x40)
 	c := nt.NewChain()
+	if lateStart && n > 0 {
+		// the first block comes long after the genesis block (the chain ends an hour ago): the chain
+		// is far behind the schedule the difficulty adjustment aims at, the difficulty falls to its
+		// minimum and stays there, and ten thousand blocks are mined in a second
+		c.Mine(netx.MineOpts{Dt: time.Since(nt.Genesis.Timestamp) - time.Duration(n+3600)*time.Second, Addr: types.Address{1}})
+		n--
+	}
 	c.MineN(n, dt, 1)
 	mains[key] = c
 	return c
@@ -505,7 +518,7 @@ func mainChain(allow, require uint64, n int, dt time.Duration) *netx.Chain {
 
 func runSpec(s spec, ip string) *vh.Case {
 	c := &vh.Case{Name: s.name, Model: "sync gossip", Key: s.name}
-	main := mainChain(s.allow, s.require, s.mainLen, s.mainDt)
+	main := mainChain(s.allow, s.require, s.mainLen, s.mainDt, s.lateStart)
 	nt := main.Net
 	reg := netx.NewReg(nt)
 	reg.AddChain(main)
